@@ -369,13 +369,13 @@ def main(tier):
                                               "compared": "alignments, num_columns, num_rows, num_nonempty_cells and the number of cells of every row; includes the MAX_AUTOCOMPLETED_CELLS cut-off (1000 columns x 504 one-cell rows)"}
 
     # ---- search on the implementation
-    ndocs = 7000 if quick else 60000
+    ndocs = 14000 if quick else 60000
     cases = []
     for i in range(ndocs):
         r = rng.random()
         d = struct_doc(rng) if r < 0.55 else (docgen.gen_malformed(rng) if r < 0.65 else docgen.gen_doc(rng))
         cases.append((d, gen_opts(rng)))
-    combo_docs = COMBO_DOCS if quick else COMBO_DOCS + [struct_doc(rng) for _ in range(60)]
+    combo_docs = COMBO_DOCS + [struct_doc(rng) for _ in range(8 if quick else 60)]
     ncombo = 0
     for bits in itertools.product([False, True], repeat=len(COMBO_KEYS)):
         o = {"table": True, "tasklist": True, "description_lists": True}
